@@ -258,7 +258,7 @@ func layout(s *Scenario, k int) (*observed, error) {
 	select {
 	case o := <-ch:
 		res.panic = o.panic
-	case <-time.After(10 * time.Second):
+	case <-time.After(c17.Watchdog):
 		res.hung = true
 	}
 	if res.panic != "" || res.hung {
@@ -397,7 +397,7 @@ func (d Driver) Replay(c *core.Ctx, raw json.RawMessage) []core.Mismatch {
 		return []core.Mismatch{{Signature: "machinery", Detail: err.Error()}}
 	}
 	if o.hung {
-		return []core.Mismatch{{Signature: "timeout-totext", Detail: "ToText did not return within 10 s"}}
+		return []core.Mismatch{{Signature: "timeout-totext", Detail: fmt.Sprintf("ToText did not return within %v", c17.Watchdog)}}
 	}
 	if o.panic != "" {
 		return []core.Mismatch{{Signature: "panic-totext", Detail: o.panic}}
@@ -453,7 +453,7 @@ func (d Driver) Run(c *core.Ctx) error {
 					return
 				}
 				if obs.hung {
-					c.Report(json.RawMessage(p), []core.Mismatch{{Signature: "timeout-totext", Detail: "ToText did not return within 10 s"}})
+					c.Report(json.RawMessage(p), []core.Mismatch{{Signature: "timeout-totext", Detail: fmt.Sprintf("ToText did not return within %v", c17.Watchdog)}})
 					return
 				}
 				if obs.panic != "" {
@@ -498,7 +498,7 @@ func (d Driver) Run(c *core.Ctx) error {
 		run(tlc.Opts{Module: "Layout", Config: gcfg("exh", 4, 0, 5, "{0}", false), Timeout: 30 * time.Minute})
 	}
 	for nt := 4; nt <= 9; nt++ {
-		run(tlc.Opts{Module: "Layout", Config: gcfg("rand", nt, c.Pick(80, 1000), maxw, "{0, 1}", false), Seed: c.Seed + int64(nt)})
+		run(tlc.Opts{Module: "Layout", Config: gcfg("rand", nt, c.Pick(80, 600), maxw, "{0, 1}", false), Seed: c.Seed + int64(nt)})
 	}
 	c.Count(n, nontrivial, 0)
 	c.SetExtra("layouts_with_kp_lines_bound", kpBound)
